@@ -423,19 +423,22 @@ def value_backpressure_rules(r, ctx):
     # "is a value pending" is a state of its own: an empty body is a value (the Recon of Extant), so the answer must not be
     # read off the buffer's content
     hd = [b for b in rt.all_bodies() if b.meta.get("name") == "has_data" and "ValueBackpressure" in b.defpath and not any(c.name == "has_data" for c in b.calls)]
-    if len(hd) != 1:
+    if len(hd) < 1:
         raise AnchorMissing("ValueBackpressure::has_data (inherent)")
-    hd = ctx.saw(hd[0])
+    # (the inherent method, and the trait's when it answers by itself instead of delegating: every one of them is read)
+    hds = [ctx.saw(x) for x in hd]
+    hd = hds[0]
     flds = set()
-    for i, j, p_, rv, line in hd.assigns():
-        for o in ([rv[1]] if rv[0] == "use" else [rv[2]] if rv[0] in ("un", "cast") else [["c", rv[2]]] if rv[0] == "ref" else []):
-            pl = o[1] if o and o[0] in ("c", "m") else None
-            if pl is not None:
-                flds |= {f for a, f in hd.resolve(pl).field_pairs if str(a).endswith("ValueBackpressure")}
-    for c in hd.calls:
-        for a in c.args:
-            if a[0] in ("c", "m"):
-                flds |= {f for a_, f in hd.resolve(a[1]).field_pairs if str(a_).endswith("ValueBackpressure")}
+    for hd_ in hds:
+        for i, j, p_, rv, line in hd_.assigns():
+            for o in ([rv[1]] if rv[0] == "use" else [rv[2]] if rv[0] in ("un", "cast") else [["c", rv[2]]] if rv[0] == "ref" else []):
+                pl = o[1] if o and o[0] in ("c", "m") else None
+                if pl is not None:
+                    flds |= {f for a, f in hd_.resolve(pl).field_pairs if str(a).endswith("ValueBackpressure")}
+        for c in hd_.calls:
+            for a in c.args:
+                if a[0] in ("c", "m"):
+                    flds |= {f for a_, f in hd_.resolve(a[1]).field_pairs if str(a_).endswith("ValueBackpressure")}
     r.check("current" not in flds and flds, "has_data/independent-of-the-body", where(hd), "has_data reads %s, not the content of the buffer: an empty body is still a pending value" % sorted(flds),
             "ValueBackpressure::has_data is computed from the buffer (%s): a pending value whose body is empty (Extant) is forgotten, and it has already replaced the value before it" % sorted(flds))
     pbb = rt.fn(name="push_bytes", self_adt=VB)
